@@ -684,3 +684,66 @@ func (q *Query) SMT(getValues []*Term, forCVC5 bool) string {
 	}
 	return sb.String()
 }
+
+// canonString prints t with bound variables renamed in binding order, so that
+// alpha-equivalent terms print alike.
+func (t *Term) canonString() string {
+	hasQ := false
+	t.walk(func(s *Term) {
+		if len(s.Bound) > 0 {
+			hasQ = true
+		}
+	})
+	if !hasQ {
+		return t.String()
+	}
+	n := 0
+	var ren func(t *Term, m map[string]*Term) *Term
+	ren = func(t *Term, m map[string]*Term) *Term {
+		if len(t.Bound) == 0 {
+			if len(m) == 0 {
+				return t
+			}
+			return t.subst(m)
+		}
+		m2 := map[string]*Term{}
+		for k, v := range m {
+			m2[k] = v
+		}
+		nb := make([]*Term, len(t.Bound))
+		for i, b := range t.Bound {
+			nb[i] = Var(fmt.Sprintf("b#%d", n), b.Sort)
+			n++
+			m2[b.Name] = nb[i]
+		}
+		return &Term{Op: t.Op, Bound: nb, Args: []*Term{renBody(t.Args[0], m2, ren)}, Sort: t.Sort}
+	}
+	return renBody(t, map[string]*Term{}, ren).String()
+}
+
+func renBody(t *Term, m map[string]*Term, ren func(*Term, map[string]*Term) *Term) *Term {
+	if len(t.Bound) > 0 {
+		return ren(t, m)
+	}
+	switch t.Op {
+	case "var":
+		if r, ok := m[t.Name]; ok {
+			return r
+		}
+		return t
+	case "int", "true", "false":
+		return t
+	}
+	args := make([]*Term, len(t.Args))
+	changed := false
+	for i, a := range t.Args {
+		args[i] = renBody(a, m, ren)
+		if args[i] != a {
+			changed = true
+		}
+	}
+	if !changed {
+		return t
+	}
+	return &Term{Op: t.Op, Name: t.Name, Args: args, Sort: t.Sort, Int: t.Int}
+}
